@@ -65,6 +65,17 @@ fn main() {
                 };
                 rt.block_on(chmux_data::scenario(s, &opts));
             }
+            "life" => {
+                let opts = chmux_life::LifeOpts {
+                    connects: get("connects", 5),
+                    cancel: get("cancel", 1) != 0,
+                    defer: get("defer", 1),
+                    data: get("data", 1) != 0,
+                    max_ports: get("max_ports", 4),
+                    calm: get("calm", 0) != 0,
+                };
+                rt.block_on(chmux_life::scenario(s, &opts));
+            }
             other => {
                 eprintln!("unknown workload {other}");
                 std::process::exit(2);
